@@ -189,7 +189,7 @@ def check(ctx):
     prop = ctx.prop
     big = not ctx.quick
     core.mc(ctx, "pipeline", "MC_Pipeline", {"Big": big},
-            invariants=["InvYieldShape", "InvC06", "InvC06Prefix", "InvC18"], init="MCPInit", nxt="MCPNext",
+            invariants=["InvYieldShape", "InvC06", "InvC06Prefix", "InvCommute", "InvC18"], init="MCPInit", nxt="MCPNext",
             timeout=3300, deadlock=True)      # deadlock check on: every run of the model reaches "done"
     blocks = states_from_init_dump(ctx, big)
     idx = list(range(len(blocks)))
